@@ -168,6 +168,18 @@ ALPHA = (list('형항핫흣흡흑혀하흐엉앙앗읏읍윽어아으') * 3 + ['
          + list('?!') * 4 + HEARTS + list(' \n\tab1,;') + ['　', '😀', 'é', '\r', '\u0085', '\u2028', '\u0301', '\ufe0f', '\x00'])
 
 
+SPECIALS = list('형항핫흣흡흑혀하흐엉앙앗읏읍윽') + list('.…⋯⋮?!') + HEARTS
+NEIGHBOURS = sorted({chr(ord(c) + d) for c in SPECIALS for d in (-2, -1, 1, 2) if 0 < ord(c) + d < 0x110000 and not (0xd800 <= ord(c) + d <= 0xdfff)}
+                    - set(SPECIALS)) + ['？', '！', '‥', '·', '❣', '❥', '♢', '♤', '💓', '💔', '💞', '💟', '\u1112', '\u3147', '\uffa0']
+
+
+def neighbour_text(rng, maxlen=40):
+    """Characters ADJACENT to the entries of the parser's tables (hearts, dots, command / start / end syllables) mixed
+    with the real ones: none of the neighbours has any meaning in the grammar."""
+    n = rng.randint(1, maxlen)
+    return ''.join(rng.choice(NEIGHBOURS) if rng.random() < 0.4 else rng.choice(SPECIALS + [' ', '\n']) for _ in range(n))
+
+
 def random_text(rng, maxlen=60):
     n = rng.randint(0, rng.choice([5, 20, maxlen]))
     return ''.join(rng.choice(ALPHA) for _ in range(n))
